@@ -118,6 +118,7 @@ pub fn cmd_scenario(args: &HashMap<String, String>) -> i32 {
         "S1" => s1(&dir, &rec, watchdog),
         "S2" => s2(&dir, &rec, watchdog),
         "S7" => s7(&dir, &rec, watchdog),
+        "FULLQ" => fullq(&dir, &rec, watchdog),
         _ => json!({"error": "unknown scenario"}),
     };
     println!("{}", result);
@@ -175,6 +176,51 @@ fn s1(dir: &std::path::Path, rec: &Arc<Recorder>, watchdog: u64) -> serde_json::
     let hung = !returned.load(Ordering::SeqCst);
     json!({"which": "S1", "reached": reached_lw && reached_client && notified.load(Ordering::SeqCst), "hung": hung,
            "what": "commit call issued while the queue was over its limit never returned after the log worker failed"})
+}
+
+/// Several commit calls parked on the full commit queue: when the queue drains below its limit
+/// every one of them must return (the log worker wakes all waiters at the crossing).
+fn fullq(dir: &std::path::Path, rec: &Arc<Recorder>, watchdog: u64) -> serde_json::Value {
+    let db = Arc::new(Db::open_or_create(&opts(dir, true)).unwrap());
+    let gate_lw = Gate::new(); // log worker, holding no lock, at BeginRecord of the first big commit
+    let parked = Arc::new(AtomicUsize::new(0));
+    {
+        let (gl, pk) = (gate_lw.clone(), parked.clone());
+        rec.set_callback(Some(Arc::new(move |name: &str, _a: &[u64], _p: usize| match name {
+            "BeginRecord" if !gl.reached.load(Ordering::SeqCst) => gl.pass(),
+            "CommitFullPark" => {
+                pk.fetch_add(1, Ordering::SeqCst);
+            },
+            _ => {},
+        })));
+    }
+    let mb17 = 17 * 1024 * 1024;
+    db.commit(vec![(0u8, b"A".to_vec(), Some(big(mb17, 1)))]).unwrap();
+    let reached = gate_lw.wait_reached(30);
+    db.commit(vec![(0u8, b"B1".to_vec(), Some(big(mb17, 2)))]).unwrap();
+    let returned = Arc::new(AtomicUsize::new(0));
+    let nclients = 3usize;
+    for c in 0..nclients {
+        let (db2, r2) = (db.clone(), returned.clone());
+        std::thread::spawn(move || {
+            let _ = db2.commit(vec![(0u8, vec![b'c', c as u8], Some(vec![3u8; 10]))]);
+            r2.fetch_add(1, Ordering::SeqCst);
+        });
+    }
+    let start = Instant::now();
+    while parked.load(Ordering::SeqCst) < nclients && start.elapsed() < Duration::from_secs(20) {
+        std::thread::sleep(Duration::from_millis(5));
+    }
+    let all_parked = parked.load(Ordering::SeqCst) >= nclients;
+    std::thread::sleep(Duration::from_millis(100)); // let them actually wait
+    gate_lw.open();
+    let start = Instant::now();
+    while returned.load(Ordering::SeqCst) < nclients && start.elapsed() < Duration::from_secs(watchdog) {
+        std::thread::sleep(Duration::from_millis(10));
+    }
+    let n = returned.load(Ordering::SeqCst);
+    json!({"which": "FULLQ", "reached": reached && all_parked, "hung": n < nclients,
+           "what": format!("{} of {} commit calls that waited on the full queue returned after it drained", n, nclients)})
 }
 
 /// S2: the log worker has evaluated `!shutdown && log_queue > MAX_LOG_QUEUE_BYTES`; before it
